@@ -233,9 +233,11 @@ def translate (o : Obj K) (x : List K) : Obj K :=
   let o' := if x.length > o.dimension then o.setDimension x.length else o
   o'.affineCp (fun j i => if i = j then 1 else 0) (fun i => x.getD i 0)
 
-/-- `scale(*args)`: `s` already flattened; a single factor is replicated (`dups=3`). -/
+/-- `scale(*args)`: `s` already flattened (`ensure_flatlist`); `ensure_listlike(s, dups=3)` repeats
+    the LAST entry until there are three (`(a,) ↦ [a,a,a]`, `(a,b) ↦ [a,b,b]`; `[]` stays `[]`);
+    `s[i]` for `i < dim` raises `IndexError` when the list is still too short. -/
 def scale (o : Obj K) (s : List K) : PyM (Obj K) :=
-  let s' := if s.length = 1 then List.replicate 3 (s.headD 1) else s
+  let s' := if s.isEmpty then [] else s ++ List.replicate (3 - s.length) (s.getLastD 1)
   if s'.length < o.dimension then .error .index else
   .ok (o.affineCp (fun j i => if i = j then s'.getD i 1 else 0) (fun _ => 0))
 
